@@ -1,10 +1,67 @@
 from .common import *
+import re
+EXPL = 'EXACT: Generator(i) equals the documented basis matrix, hat = sum t_i G_i, Vee(hat t)=t, hat(Bracket(a,b)) = [hat a, hat b], antisymmetry, Jacobi, bilinearity, inner = Frobenius product, W symmetric, a^T W a >= |a|^2 (positive definite), weightedNorm^2 = squaredWeightedNorm; Generator(i) raises for the out-of-range indices -1, DoF, DoF+1, INT_MAX, INT_MIN; symbolic tangents, decided per entry by z3 over the DAG of the real templates.' + ' Generator(i): for every 32-bit index value the LLVM-IR control flow of the real function raises iff i >= DoF (bit-vector SMT).'
 def run(tier, a=None):
     specs = [{'src': 'h_c07.cpp', 'defs': ['TAG=' + t]} for t in tags(tier)]
     specs += [{'src': 'h_c07.cpp', 'defs': ['TAG=Bnd<R1t,SO3t,SE2t>', 'ONLY_GENIDX'], 'filter': 'c07_genidx.*'}, {'src': 'h_c07.cpp', 'defs': ['TAG=Bnd<SE3t,R3t>', 'ONLY_GENIDX'], 'filter': 'c07_genidx.*'}]
     import props.common as pc
     _o = pc.opts
     pc.opts = lambda tier, a=None: dict(_o(tier, a), approx_ok=False)
-    return simple('C07', tier, a, specs,
-        'EXACT: Generator(i) equals the documented basis matrix, hat = sum t_i G_i, Vee(hat t)=t, hat(Bracket(a,b)) = [hat a, hat b], antisymmetry, Jacobi, bilinearity, inner = Frobenius product, W symmetric, a^T W a >= |a|^2 (positive definite), weightedNorm^2 = squaredWeightedNorm; Generator(i) raises for the out-of-range indices -1, DoF, DoF+1, INT_MAX, INT_MIN; symbolic tangents, decided per entry by z3 over the DAG of the real templates.',
-        ['no magnitude bound (real arithmetic)', 'groups: ' + ','.join(tags(tier)), 'generator index behaviour: indices -1, DoF, DoF+1, INT_MAX, INT_MIN must raise and 0, DoF-1 must not (concrete indices; not all 2^32 values)'])
+    from vlib import runner, build, irx
+    import subprocess, json, re as _re
+    res = runner.Result('C07', tier); res.bounds = ['no magnitude bound (real arithmetic)', 'groups: ' + ','.join(tags(tier)), 'generator index: all 2^32 values of the index by bit-vector SMT on the LLVM IR of Generator(i) for SO2, SE2, SO3, SE3, SE_2_3, SGal3, R3 (Bundle: concrete indices -1, DoF, DoF+1, INT_MAX, INT_MIN, 0, DoF-1)']
+    if a is not None and a.only:
+        specs = [s_ for s_ in specs if _re.search(a.only, s_['src'] + ':' + ','.join(s_['defs']))]
+    o = pc.opts(tier, a)
+    out = runner.run_sym(res, specs, o); runner.finish_sym(res, *out, o)
+    if a is None or not a.only or _re.search(a.only, 'irx'):
+        index_dispatch(res, tier)
+    runner.write_evidence(res, 'proof', EXPL, ASSUME, 'python3-vt /verif/check.py C07 --tier %s' % tier, TRUSTED + ['clang++-14 -O1 as producer of the IR of Generator(i); z3 QF_BV on the CFG encoding (vlib/irx.py dispatch_formulas)'])
+    return runner.conclude(res)
+
+DOF = {'SO2': 1, 'SE2': 3, 'SO3': 3, 'SE3': 6, 'SE_2_3': 9, 'SGal3': 10, 'R3': 3, 'Bundle': 10}
+def index_dispatch(res, tier):
+    import os, subprocess, json
+    from vlib import runner, build, irx
+    known = runner.load_known('C07')
+    wd = os.path.join(build.WORK, 'run', 'C07'); os.makedirs(wd, exist_ok=True)
+    ll = os.path.join(wd, 'entries.ll')
+    r = subprocess.run(['clang++-14', '-std=c++11', '-O1', '-DNDEBUG', build.GUARD, '-DEIGEN_DONT_VECTORIZE', '-fno-vectorize', '-fno-slp-vectorize', '-fno-unroll-loops', '-S', '-emit-llvm',
+                        '-I' + os.path.join(build.REPO, 'include'), '-I' + os.path.join(build.REPO, 'external/tl'), '-isystem', '/usr/include/eigen3', os.path.join(build.VERIF, 'harness/c14/entries.cpp'), '-o', ll], capture_output=True, text=True)
+    if r.returncode != 0:
+        res.errors.append({'what': 'IR for the generator wrappers does not build', 'diag': r.stderr[-1500:]}); return
+    txt = open(ll).read()
+    for g, dof in DOF.items():
+        try: rf, tf, decls = irx.dispatch_formulas(txt, '@g_' + g)
+        except Exception as e:
+            res.undecided.append('index dispatch %s: %s' % (g, e)); res.obligations += 2; continue
+        qs = [('out-of-range index returns without raising', '(and (bvuge idx (_ bv%d 32)) %s)' % (dof, tf), 'unsat'), ('in-range index raises', '(and (bvult idx (_ bv%d 32)) %s)' % (dof, rf), 'unsat'), ('vacuity: some in-range index returns', '(and (bvult idx (_ bv%d 32)) %s)' % (dof, tf), 'sat')]
+        for name, phi, expect in qs:
+            q = '(set-logic QF_BV)\n(set-option :produce-models true)\n(declare-fun idx () (_ BitVec 32))\n' + '\n'.join(decls) + '\n(assert %s)\n(check-sat)\n(get-value (idx))\n' % phi
+            qf = os.path.join(wd, 'q_%s.smt2' % g); open(qf, 'w').write(q)
+            o = subprocess.run(['z3', '-T:30', qf], capture_output=True, text=True).stdout
+            ans = o.strip().split('\n')[0] if o.strip() else 'noanswer'
+            res.obligations += 1; res.solver['queries'] += 1
+            if ans == expect:
+                res.discharged += 1
+                if len(res.samples) < 8: res.samples.append({'irx': g, 'claim': name, 'solver': 'z3 QF_BV', 'answer': ans})
+                continue
+            key = 'irx:%s:%s' % (g, name)
+            if expect == 'sat' or ans not in ('sat',):
+                res.undecided.append('%s: solver answered %s' % (key, ans)); continue
+            m = re.search(r'#x([0-9a-fA-F]{8})', o); idx = int(m.group(1), 16) if m else None
+            # replay on the real code
+            rb = os.path.join(wd, 'gen_replay')
+            if not os.path.exists(rb):
+                subprocess.run(['g++', '-std=c++11', '-O1', '-w', '-I' + os.path.join(build.REPO, 'include'), '-I' + os.path.join(build.REPO, 'external/tl'), '-isystem', '/usr/include/eigen3', os.path.join(build.VERIF, 'harness/c14/gen_replay.cpp'), '-o', rb], capture_output=True)
+            sidx = idx - (1 << 32) if idx is not None and idx >= (1 << 31) else idx
+            rr = subprocess.run([rb, g, str(sidx)], capture_output=True, text=True).stdout.strip() if idx is not None and os.path.exists(rb) else ''
+            bad = (rr.startswith('returned') and name.startswith('out-of-range')) or (rr.startswith('raised') and name.startswith('in-range'))
+            if not bad:
+                res.undecided.append('%s: abstraction too coarse (model index %s, real code: %s)' % (key, sidx, rr)); continue
+            kf = runner.match_known(known, key)
+            if kf: res.known.append((key, kf.get('what', ''))); continue
+            d = os.path.join(build.VERIF, 'replay', 'C07'); os.makedirs(d, exist_ok=True)
+            fn = os.path.join(d, 'irx_%s_%s.json' % (g, name.split()[0])); json.dump({'property': 'C07', 'key': key, 'entry': 'Generator', 'claim': name, 'inputs': {'group': g, 'index': sidx}, 'replay': {'cmd': '%s %s %s' % (rb, g, sidx), 'output': rr}}, open(fn, 'w'), indent=1)
+            res.violations.append((key, fn))
+    res.functions.add('irx: Generator(i) index dispatch for ' + ','.join(DOF))
